@@ -116,7 +116,7 @@ def build(h, workdir, witness=False):
             hits = [n for n in names if dm[n] == key or dm[n].split('(')[0] == key]
             hits = [n for n in hits if n != new]
             if not hits:
-                raise BuildError('replace: no function matches %r' % key)
+                continue   # not referenced by this harness
             for n in hits:
                 repl_args += ['--replace', '%s=%s' % (n, new)]
         for key in h.get('drop', []):
@@ -198,6 +198,8 @@ def classify(results):
         d = r.get('description', '')
         if d.startswith('MODEL-BOUND') or d.startswith('MODEL-UNSUPPORTED'):
             incon.append((r['property'], d))
+        elif 'no body for callee' in d:
+            incon.append((r['property'], 'ENGINE: ' + d))
         elif 'unwinding assertion' in d:
             incon.append((r['property'], d))
         elif r['status'] == 'FAILURE':
@@ -378,7 +380,7 @@ def cmd_check(prop, tier, only, keep, seed):
                 v['replay'] = path
                 k = None
                 for e in kf:
-                    if e.get('property') == prop and e.get('harness') == r['id'] and (e.get('label') is None or e.get('label') in v['description'].replace(' ', '_')):
+                    if e.get('property') == prop and e.get('harness') in (r['id'], r['id'].split('@')[0]) and (e.get('label') is None or e.get('label') in v['description'].replace(' ', '_')):
                         k = e; break
                 if k:
                     v['known'] = k['_line']
@@ -443,10 +445,11 @@ def write_evidence(prop, tier, seed, results, wall, nviol):
 def cmd_replay(path):
     d = json.load(open(path))
     idx = load_index()
-    h = [expand(x, d.get('tier', 'quick')) for x in idx if x['id'] == d['harness']]
+    h = [expand(x, d.get('tier', 'quick')) for x in idx if x['id'] == d['harness'].split('@')[0]]
     if not h:
         print('unknown harness', d['harness']); return 2
-    h = h[0]
+    h = dict(h[0])
+    if d.get('defines'): h['defines'] = d['defines']
     root = tempfile.mkdtemp(prefix='vf_replay_')
     try:
         wd = os.path.join(root, h['id']); os.makedirs(wd)
